@@ -447,6 +447,7 @@ func main() {
 	stalls(run, hb, s, root)
 	s.tap.Close()
 	fullProxy(run, hb, root)
+	throttledNeighbour(run, hb)
 	run.Floor("wellformed_checked", int64(n/4))
 	run.Floor("malformed_checked", int64(n/10))
 	run.Floor("unusual_checked", int64(n/20))
